@@ -157,7 +157,8 @@ def branchGuarded (kind : String) : Bool :=
 def genCfg : Cfg where
   stream := { skipsHeader := Gen.streamLoopSkipsHeader,
               guarded := yieldsGuarded "stream" && Gen.streamLoopRegistersUnconditionally }
-  json := { guardRecord := branchGuarded "record", guardFallback := branchGuarded "fallback" }
+  json := { guardRecord := branchGuarded "record" && Gen.jsonLoopUnpacksEveryLine,
+            guardFallback := branchGuarded "fallback" && Gen.jsonLoopUnpacksEveryLine }
   avroGuarded := yieldsGuarded "avro"
   csvGuarded := yieldsGuarded "csvfile"
   sqliteGuarded := yieldsGuarded "sqlite" && !Gen.sqliteReadTableConsultsSelector
